@@ -942,11 +942,15 @@ def check(ck, P, rule, only=None):
             if g is None:
                 continue
             have_ = rust_local_opassigns(g)
-            names_ = {str(l.get("name")) for l in g.locals if l.get("name")}
+            names_ = {}
+            for l in g.locals:
+                if l.get("name"):
+                    names_[str(l["name"])] = names_.get(str(l["name"]), 0) + 1
             for no, cnt in sorted(want_.items()):
                 nm, op = no.split("|")
-                if nm not in names_:
-                    continue  # the working local was renamed: nothing to compare by name
+                cnt, nloc = cnt if isinstance(cnt, list) else (cnt, 1)
+                if names_.get(nm, 0) < nloc:
+                    continue  # the working local (or one of the shadowed locals of that name) was renamed: nothing to compare by name
                 n += 1
                 got = have_.get((nm, op), 0)
                 ck.decide(got >= cnt, rule, "%s:local-update:%s:%s:%s" % (cname, fpath.split("::")[-1], nm, op),
